@@ -15,6 +15,8 @@ type RootSpec struct {
 	IsRef bool      `json:"isref"`
 	Name  string    `json:"name"` // reference name, or the ROOT expression
 	Kind  string    `json:"kind"` // plain | path | colon: how git parses Name
+	// Symref, when set, makes the reference a symbolic one ("ref: <Symref>"); O is the object its target names
+	Symref string `json:"symref,omitempty"`
 }
 
 type Order struct {
